@@ -457,6 +457,10 @@ class PoolManager(RequestMethods):
             kw["headers"] = HTTPHeaderDict(kw["headers"])._prepare_for_method_change()
 
         retries = kw.get("retries")
+        if retries is None:
+            # No policy given with the request: the one the pool was built
+            # with (the manager's) governs the redirects followed here too.
+            retries = conn.retries
         if not isinstance(retries, Retry):
             retries = Retry.from_int(retries, redirect=redirect)
 
